@@ -262,7 +262,9 @@ def run_case(proc, case, chooser, trace=None):
             def check_quiescent(final):
                 for c in children:
                     for ri, r in enumerate(c.regs):
-                        single = len(c.regs) == 1
+                        # set_exit_callback keeps one callback: a later registration replaces an unreported
+                        # earlier one, so the report is owed to the last registration (an earlier one stays EITHER)
+                        single = ri == len(c.regs) - 1
                         where = where_of(c, r)
                         n = fired(r)
                         if r.kind == "cb":
@@ -490,8 +492,8 @@ class C42(Check):
     technique = ("bounded exhaustive schedule enumeration (stateless, deviation-bounded) on the "
                  "real tornado.process.Subprocess over a fake kernel/loop against a reference")
     assumptions = [
-        "one registration per Subprocess is the asserted class; a second registration on the same "
-        "object is executed with oracle-free invariants only (EITHER: re-registration)",
+        "a second registration on the same object replaces the first: the report is owed to the last "
+        "registration (exactly once, right status); whether the replaced first one also fired is EITHER",
         "SIGCHLD is guaranteed only for exits that happen while the handler is installed; "
         "deliveries may be coalesced or spurious",
         "waitpid is the only observation of the kernel; exits between two waitpid calls of one "
